@@ -72,6 +72,47 @@ def _plucker_table(ctx, f):
                "store index == selected rows" if okc else f"p[{', '.join(tg)}] is filled with the minor on rows [{', '.join(rows_)}]", st[0])
 
 
+def _range_basis(ctx, f):
+    """The Pluecker coordinates are minors of a basis of the RANGE of the state (rank-4 criterion).  Accepted: scipy.linalg.orth(state); the
+    eigenvectors of the `rank` LARGEST eigenvalues.  numpy.linalg.eigh sorts ascending: `vecs[:, :rank]` are then kernel vectors."""
+    m = ctx.model
+    st = [n for n in walk_no_nested(f.node) if isinstance(n, ast.Assign) and isinstance(n.targets[0], ast.Subscript) and isinstance(n.targets[0].value, ast.Name) and n.targets[0].value.id == "p"
+          and isinstance(n.value, ast.Call) and getattr(n.value.func, "attr", "") == "det"]
+    key = "the minors are taken of a basis of the range of the state"
+    if not st or not st[0].value.args or not isinstance(st[0].value.args[0], ast.Subscript) or not isinstance(st[0].value.args[0].value, ast.Name):
+        ctx.ob("R-PRED", f, key, None, "minor expression not recognised", required=False)
+        return
+    qn = st[0].value.args[0].value.id
+    dfs = [n for n in walk_no_nested(f.node) if isinstance(n, ast.Assign) and len(n.targets) == 1 and isinstance(n.targets[0], ast.Name) and n.targets[0].id == qn]
+    if len(dfs) != 1:
+        ctx.ob("R-PRED", f, key, None, f"`{qn}` has {len(dfs)} definitions", required=False)
+        return
+    v = dfs[0].value
+    if isinstance(v, ast.Call) and (m.resolve_call(f, v).key or "").endswith("linalg.orth") and v.args and unparse(v.args[0]) == "state":
+        ctx.ob("R-PRED", f, key, True, "orth(state)", dfs[0])
+        return
+    ok, why = None, f"`{unparse(dfs[0])[:60]}` not recognised as a range basis"
+    if isinstance(v, ast.Subscript) and isinstance(v.value, ast.Name) and isinstance(v.slice, ast.Tuple) and len(v.slice.elts) == 2 and isinstance(v.slice.elts[1], ast.Slice):
+        vecs = v.value.id
+        sl = v.slice.elts[1]
+        src = None
+        for n in walk_no_nested(f.node):
+            if isinstance(n, ast.Assign) and isinstance(n.targets[0], (ast.Tuple, ast.List)) and len(n.targets[0].elts) == 2 and isinstance(n.targets[0].elts[1], ast.Name) \
+                    and n.targets[0].elts[1].id == vecs and isinstance(n.value, ast.Call):
+                src = m.resolve_call(f, n.value).key or ""
+        rebound = sum(1 for n in walk_no_nested(f.node) if isinstance(n, ast.Assign) and any(isinstance(t, ast.Name) and t.id == vecs for t in n.targets))
+        if src and src.endswith(("linalg.eigh",)) and not rebound:
+            first = sl.lower is None and sl.upper is not None and not (isinstance(sl.upper, ast.UnaryOp))
+            last = sl.upper is None and isinstance(sl.lower, ast.UnaryOp) and isinstance(sl.lower.op, ast.USub)
+            if first:
+                ok, why = False, (f"`{unparse(dfs[0])[:60]}`: eigh returns the eigenvalues in ASCENDING order, so the first {unparse(sl.upper)} columns are eigenvectors of the "
+                                  "smallest eigenvalues -- for a rank-deficient state they span its kernel, not its range; the criterion's determinant is then generically "
+                                  "non-zero and separable rank-4 states are declared entangled")
+            elif last:
+                ok, why = True, "eigenvectors of the largest eigenvalues (eigh, last columns)"
+    ctx.ob("R-PRED", f, key, ok, why, dfs[0], required=ok is not None)
+
+
 def _reduced_state_roles(ctx, f):
     """rho_A (x) rho_B: the first Kronecker factor is the reduced state of the FIRST subsystem (trace over [1]), the second that of
     the second (trace over [0]).  Locals are resolved through direct assignment and through tuple-unpacking of a
@@ -165,6 +206,11 @@ def run(ctx):  # noqa: C901
         ctx.ob("R-PRED", ip, "verdict == PSD(partial transpose of mat)", bool(okm), "is_positive_semidefinite(partial_transpose(mat, ...))" if okm else f"operand {show(t)[:60] if t else '?'}", c)
     check_call_bases(ctx, ip, "partial_transpose.partial_transpose", "sys")
     r_thread(ctx, ip, "dim", "partial_transpose.partial_transpose")
+    # the scalar-dim convention of the helper the verdict is computed with (is_ppt(rho, sys, d) means the cut [d, N/d])
+    from ..rules import r_scalar_dim_bipartite, r_scalar_dim_expand
+    ptf = m.func("partial_transpose.partial_transpose")
+    r_scalar_dim_expand(ctx, ptf, chain=["is_ppt", "partial_transpose"])
+    r_scalar_dim_bipartite(ctx, ptf, chain=["is_ppt", "partial_transpose"])
     p = ip.param("sys")
     ctx.ob("R-BASE", ip, "default sys == 2 (1-based second party)", isinstance(p.default, ast.Constant) and p.default.value == 2, "second party by default")
     dflt = [n for n in walk_no_nested(ip.node) if isinstance(n, ast.Assign) and isinstance(n.targets[0], ast.Name) and n.targets[0].id == "tol"]
@@ -193,6 +239,7 @@ def run(ctx):  # noqa: C901
             check_call_bases(ctx, f, "partial_channel.partial_channel", "sys")
     _reduced_state_roles(ctx, isep)
     _plucker_table(ctx, isep)
+    _range_basis(ctx, isep)
     _shape_matmul(ctx, isep)
     _certain_type_errors(ctx, isep)
     r_kind_int(ctx, isep, "dim")
